@@ -220,17 +220,19 @@ def run(R):
         R.ok("C06.route", "JoinedTableData::execute", "joined lines go through ExecutionEngine::execute", jf.loc())
     else:
         R.violation("C06.route", "JoinedTableData::execute", "the joined file is not loaded through ExecutionEngine::execute", [jf.loc()])
-    # limit counter
-    for f in P.fns.values():
-        if f.target != "lib" or f.derived:
-            continue
-        for i, s in f.stmts():
-            if s["k"] == "assign" and "num_output_rows" in place_fields(s["pl"]):
-                owner = f.spath
-                if owner.endswith("ExecutionEngine::update_limit") or owner.endswith("ExecutionEngine::new"):
-                    R.ok("C06.limit", owner, "writer of num_output_rows", "%s:%d" % (f.file, s["line"]), nontrivial=False)
-                else:
-                    R.violation("C06.limit", owner, "num_output_rows is written outside update_limit", ["%s:%d" % (f.file, s["line"])])
+    # limit counter (found structurally: the usize field compared with the statement's LIMIT)
+    from .rules_c07 import limit_counter
+    counter, writers = limit_counter(P)
+    if counter is None:
+        R.note("C06.limit: no LIMIT counter field found (decided by C07.count)")
+    for w in writers:
+        fed_ok = any(short(c.name) == "alloc::vec::Vec::len" and "sqlgrep::data_model::Row" in " ".join(c.func.get("res_targs") or c.targs)
+                     for c in w.calls)
+        if fed_ok or w.spath.endswith("::new"):
+            R.ok("C06.limit", w.spath, "the LIMIT counter is increased by the number of emitted rows", w.loc(), nontrivial=False)
+        else:
+            R.violation("C06.limit", w.spath, "%s writes the LIMIT counter from something else than the emitted rows (e.g. per line): lines that "
+                                              "yield no row would use up the limit" % w.path, [w.loc()])
     R.assume("extraction is a pure function of (definition, line): decided separately by C01.pure")
 
 
